@@ -44,6 +44,50 @@ def is_stream(proto, read_name):
     return "Iterable" in m.group(1)
 
 
+class Spy:
+    """records the outermost calls made on a CodedOutputStream (nested calls of its own methods are not listed)"""
+    NAMES = ["write", "write_bytes", "write_bytes_directly", "write_byte_no_check", "write_unsigned_varint",
+             "write_signed_varint", "ensure_capacity", "flush"]
+
+    def __init__(self, stream):
+        self.depth = 0
+        self.log = []
+        for name in Spy.NAMES:
+            self._wrap(stream, name)
+
+    def _wrap(self, stream, name):
+        orig = getattr(stream, name)
+
+        def f(*a, **k):
+            top = self.depth == 0
+            self.depth += 1
+            try:
+                return orig(*a, **k)
+            finally:
+                self.depth -= 1
+                if top:
+                    self.log.append(self._render(name, a))
+        setattr(stream, name, f)
+
+    @staticmethod
+    def _render(name, a):
+        if name == "write":
+            st = a[0]
+            return ["f", st.size, int.from_bytes(st.pack(*a[1:]), "little")]
+        if name in ("write_bytes", "write_bytes_directly"):
+            return ["B" if name == "write_bytes" else "D", bytes(a[0]).hex()]
+        if name == "write_byte_no_check":
+            return ["n", int(a[0])]
+        if name == "write_unsigned_varint":
+            return ["v", int(a[0])]
+        if name == "write_signed_varint":
+            z = int(a[0])
+            return ["v", (z << 1) ^ (z >> 63) if -2 ** 63 <= z < 2 ** 63 else -1]
+        if name == "ensure_capacity":
+            return ["e", int(a[0])]
+        return ["F"]
+
+
 for line in sys.stdin:
     line = line.strip()
     if not line:
@@ -59,6 +103,7 @@ for line in sys.stdin:
         W = getattr(mod, ("Binary" if c["fout"] == "binary" else "NDJson") + proto + "Writer")
         r = R(src)
         w = W(out)
+        spy = Spy(w._stream) if c.get("trace") and c["fout"] == "binary" else None
         mode = c.get("mode", "copy")
         if mode == "copy":
             r.copy_to(w)
@@ -116,6 +161,11 @@ for line in sys.stdin:
         except Exception:  # noqa: BLE001
             pass
     signal.setitimer(signal.ITIMER_REAL, 0)
+    if c.get("trace") and c["fout"] == "binary":
+        try:
+            res["trace"] = spy.log
+        except NameError:
+            res["trace"] = None
     res["out"] = out.getvalue().hex() if c["fout"] == "binary" else out.getvalue()
     print(json.dumps(res))
     sys.stdout.flush()
